@@ -63,6 +63,7 @@ type Iter[K comparable, V any, M ~map[K]V] struct {
 	k        K
 	v        V
 	done     bool
+	nprod    int
 }
 
 func sortKeys[K comparable, V any, M ~map[K]V](m M) []keyed[K] {
@@ -89,12 +90,10 @@ func Begin[K comparable, V any, M ~map[K]V](m M, site string) *Iter[K, V, M] {
 	return it
 }
 
-// Next advances; it reports whether a key/value pair was produced.
-func (it *Iter[K, V, M]) Next() bool {
-	atomic.AddInt64(&Nexts, 1)
-	if it.done {
-		return false
-	}
+// menu computes the current alternatives: entries present at Begin that are
+// still live and not yet produced (mandatory), and live entries created since
+// (optional).
+func (it *Iter[K, V, M]) menu() (mandatory, optional []keyed[K]) {
 	// An already produced key that is gone now is forgotten: if it comes
 	// back it is a new entry.
 	for k := range it.produced {
@@ -103,7 +102,6 @@ func (it *Iter[K, V, M]) Next() bool {
 			delete(it.isInit, k)
 		}
 	}
-	var mandatory, optional []keyed[K]
 	for _, k := range it.initial {
 		if !it.isInit[k.k] || it.produced[k.k] {
 			continue
@@ -118,6 +116,45 @@ func (it *Iter[K, V, M]) Next() bool {
 				optional = append(optional, k)
 			}
 		}
+	}
+	return mandatory, optional
+}
+
+// Menu exposes the current alternatives (conformance testing).
+func (it *Iter[K, V, M]) Menu() (mandatory, optional []K) {
+	m, o := it.menu()
+	for _, k := range m {
+		mandatory = append(mandatory, k.k)
+	}
+	for _, k := range o {
+		optional = append(optional, k.k)
+	}
+	return
+}
+
+// Force produces the given key if the automaton allows it now.
+func (it *Iter[K, V, M]) Force(k K) bool {
+	m, o := it.menu()
+	for _, c := range append(m, o...) {
+		if c.k == k {
+			it.produced[k] = true
+			it.k, it.v = k, it.m[k]
+			return true
+		}
+	}
+	return false
+}
+
+// Next advances; it reports whether a key/value pair was produced.
+func (it *Iter[K, V, M]) Next() bool {
+	atomic.AddInt64(&Nexts, 1)
+	if it.done {
+		return false
+	}
+	mandatory, optional := it.menu()
+	it.nprod++
+	if it.nprod > 64 {
+		optional = nil // safety horizon: a loop that keeps creating entries is not followed forever
 	}
 	n := len(mandatory) + len(optional)
 	stop := 0
